@@ -11,8 +11,8 @@ RULE = (
     "step: complete enumeration of crc8404B(bytes([b]), s) for all 2^16 start values s x 256 byte values b against a "
     "bit-serial LFSR (reflected poly 0x8408, no final XOR); every (s,b) pair is a distinct non-trivial case (counted "
     "by the enumerator; shards are disjoint ranges of s). short: all strings of length 0..2 with default start. "
-    "long: Hypothesis byte strings (0..4096 / 65536 bytes) with random start, passed as bytes/bytearray/memoryview/list/tuple and as memoryview WINDOWS (a slice of a larger buffer, a strided view) and bytearray slices; "
-    "history: a caller-held mutable buffer (bytearray, memoryview of one, a window of one, list) is checksummed, CHANGED IN PLACE, and checksummed again (same object, calls with other arguments in between): every call must equal the reference on the content at that moment (non-trivial = >= 2 calls with an in-place change between them). "
+    "long: Hypothesis byte strings (0..4096 / 65536 bytes) with random start, passed as bytes/bytearray/memoryview/list/tuple/array.array (item sizes 1, 2, 4, 8 and a memoryview of a 2-byte-item array: the VALUES are the bytes), as ONE-SHOT iterables (generator, iterator, map, reversed), and as memoryview WINDOWS (a slice of a larger buffer, a strided view) and bytearray slices; "
+    "every long case is also computed CHAINED (crc(b, crc(a)) for a generated cut a|b, start positional / keyword / int subclass / bool) and must equal the one-call result. history: a caller-held mutable buffer (bytearray, memoryview of one, a window of one, list) is checksummed, CHANGED IN PLACE, and checksummed again (same object, calls with other arguments in between): every call must equal the reference on the content at that moment (non-trivial = >= 2 calls with an in-place change between them). "
     "non-trivial = length >= 3 (beyond what step+short enumerate), distinct by content hash. Every result must be in 0..0xFFFF."
 )
 ASSUMPTIONS = [
@@ -20,7 +20,7 @@ ASSUMPTIONS = [
     "(crc8404B folds the step left to right and the step's result was checked to stay within 16 bits); the induction is a paper argument",
     "reference: bit-at-a-time LFSR pinned by the CRC-16/MCRF4XX check value 0x6F91 for '123456789'",
 ]
-REQUIRED_CLASSES = ["step.result==0", "long.container=memoryview", "long.container=memoryview-window", "long.container=memoryview-strided", "long.len>=256", "history.changed-in-place-between-calls"]
+REQUIRED_CLASSES = ["step.result==0", "long.container=memoryview", "long.container=memoryview-window", "long.container=memoryview-strided", "long.len>=256", "history.changed-in-place-between-calls", "long.container=generator", "long.container=iterator", "long.container=array", "long.container=array-H", "long.container=memoryview-of-array-H"]
 
 env.load_repo()
 from bec2format.bec2file import crc8404B  # noqa: E402
@@ -88,6 +88,25 @@ def check_long(case, rec):
         arg = memoryview(bytes(inter))[::2]
     elif container == "bytearray-window":
         arg = bytearray(b"\x55" + data + b"\x66")[1: 1 + len(data)]
+    elif container == "generator":
+        arg = (b for b in data)  # ONE-SHOT iterables: the function may walk its argument once only
+    elif container == "iterator":
+        arg = iter(data)
+    elif container == "map":
+        arg = map(int, data)
+    elif container == "reversed":
+        arg = reversed(data[::-1])
+    elif container == "array":
+        import array
+
+        arg = array.array("B", data)
+    elif container in ("array-H", "array-I", "array-q", "memoryview-of-array-H"):
+        # the byte VALUES held in items wider than one byte: iterating gives the values, the raw memory is something else
+        import array
+
+        arg = array.array(container[-1], list(data))
+        if container.startswith("memoryview"):
+            arg = memoryview(arg)
     else:
         arg = {"bytes": bytes, "bytearray": bytearray, "memoryview": memoryview, "list": list, "tuple": tuple}[container](data)
     rec.cls("long.container=" + container)
@@ -101,6 +120,19 @@ def check_long(case, rec):
         want = refcrc.crc_bit(data, start)
     if len(data) >= 3:
         rec.nt((data, start))
+    # chaining: the checksum of a+b is the checksum of b started from the checksum of a (start value positional, by keyword, as an int subclass)
+    cut = case.get("cut", 0) % (len(data) + 1)
+    s0 = 0xFFFF if start is None else start
+
+    class _Int(int):
+        pass
+
+    head = crc8404B(data[:cut]) if start is None else crc8404B(data[:cut], start_value=start)
+    chained = [crc8404B(data[cut:], head), crc8404B(data[cut:], start_value=_Int(head))]
+    if any(c != want for c in chained) or head != refcrc.crc_bit(data[:cut], s0):
+        raise Violation("chained call: crc8404B(b, crc8404B(a)) for a|b = %d|%d bytes, start=%r gives %r (head %r), one call over a+b gives %#06x" % (cut, len(data) - cut, start, chained, head, want))
+    if start in (0, 1) and crc8404B(data, bool(start)) != want:
+        raise Violation("start value given as bool %r differs from the integer %d" % (bool(start), start))
     if got != want:
         raise Violation("crc8404B(%d bytes %s.., start=%r, as %s) = %r, bit-serial reference = %#06x" % (
             len(data), data[:16].hex(), start, container, got, want))
@@ -118,8 +150,8 @@ def strat_long(tier):
     return st.fixed_dictionaries(dict(
         data=data,
         start=st.one_of(st.none(), st.integers(0, 0xFFFF), st.sampled_from([0, 0xFFFF, 0x8408, 0x1021, 1, 0x8000])),
-        container=st.sampled_from(["bytes", "bytearray", "memoryview", "list", "tuple", "memoryview-window", "memoryview-strided", "bytearray-window"]),
-        pre=st.binary(max_size=5), post=st.binary(max_size=5),
+        container=st.sampled_from(["bytes", "bytearray", "memoryview", "list", "tuple", "memoryview-window", "memoryview-strided", "bytearray-window", "generator", "iterator", "map", "reversed", "array", "array-H", "array-I", "array-q", "memoryview-of-array-H"]),
+        pre=st.binary(max_size=5), post=st.binary(max_size=5), cut=st.integers(0, 1 << 16),
     ))
 
 
